@@ -265,9 +265,12 @@ def beforeAll (p : Params) (s : S) : R := runHooks (beforeOne p) Gen.PolicyOrder
 def afterAll (p : Params) (s : S) : R := runHooks (afterOne p) Gen.PolicyOrder.order s
 
 /-- `task_handler.force_fail_task`: ERROR unconditionally; the workflow fails unless PAUSED or
-    finished (`Workflow._fail_workflow`). -/
-def forceFail (s : S) : S :=
-  { s with st := .error, msg := .forced, wf := if s.wf = .running then .done else s.wf }
+    finished (`Workflow._fail_workflow`) — judged on `task_ex.workflow_execution` as it was loaded at
+    the start of the transaction (`wf0`): a pause-before of this very transaction is not seen
+    (`update_on_match` returned a fresh row object to `Workflow.pause`), so the workflow goes
+    PAUSED → ERROR when a later hook of the same start raises. -/
+def forceFail (wf0 : WfSt) (s : S) : S :=
+  { s with st := .error, msg := .forced, wf := if wf0 = .running then .done else s.wf }
 
 def follows (p : Params) (st : TSt) : Nat :=
   match p.follow with
@@ -281,7 +284,7 @@ def completeTask (p : Params) (s : S) (st : TSt) (m : Msg) : S :=
   if isCompleted s.st then s
   else
     match afterAll p { s with st := st, msg := m } with
-    | .raise s2 => forceFail s2
+    | .raise s2 => forceFail s.wf s2
     | .ok s2 =>
       if s2.st = .delayed then s2          -- "Ignore DELAYED state."
       else if s2.wf = .paused then s2      -- next_tasks stored, nothing dispatched, not processed
@@ -307,7 +310,7 @@ def crash (s : S) : S := { s with crashes := s.crashes + 1 }
     hook changed the state.  `InvalidModelException` from a hook → `force_fail_task`. -/
 def launch (p : Params) (s0 : S) : S :=
   match beforeAll p { s0 with st := .running } with
-  | .raise s2 => forceFail s2
+  | .raise s2 => forceFail s0.wf s2
   | .ok s2 =>
     if s2.st = .running then
       match scheduleAction p s2 with
